@@ -429,19 +429,9 @@ theorem inv2_addEdge' (d : Diagram) (s t : Node) (hs : s.WF) (ht : t.WF) (h : d.
           rcases hc with hc | rfl
           · exact hcs c hc
           · exact ⟨hsi, hti⟩
-      · -- the pops have happened, then the call raises: the two positions are simply gone
+      · -- the dimension test refuses the edge before anything is consumed: the diagram is the located one
         simp only [h1, h2, hd, ne_eq, not_false_eq_true, if_true]
-        have hsub : ({ d2 with unused := popUnused d2.unused si ti } : Diagram).slots.Sublist
-            (usedEnds d2.positions d2.contractions ++ (d2.positions.getD si 0 + i) :: (d2.positions.getD ti 0 + j) ::
-                unusedG (popUnused d2.unused si ti) d2.positions d2.nodes.length) := by
-          simp only [Diagram.slots]
-          exact List.Sublist.append_left ((List.sublist_cons_self _ _).trans (List.sublist_cons_self _ _)) _
-        constructor
-        · simpa [popUnused] using hU
-        · simpa using hP
-        · exact hsub.nodup hnd2
-        · intro p hp; exact hb p (hall.mem_iff.mpr (hsub.subset hp))
-        · simpa using hcs
+        exact ⟨hU, hP, hnd, hb, hcs⟩
 
 /-- **T05.5 (distinct positions)**: in every diagram reachable by any sequence of `add_node` / `add_edge` calls on
     well-formed nodes (failing edges included), the end points of the contractions are pairwise distinct global positions
